@@ -66,7 +66,7 @@ def _shape(n):
             return ["Lit", "String", cps(n.val)], None
         return ["Lit", k, n.val], None
     if t is ast.List:
-        if not isinstance(n.val, list):
+        if not isinstance(n.val, (list, tuple)):
             raise Unprojectable("List.val is %r" % type(n.val))
         return ["List", [None] * len(n.val)], [((1, i), x) for i, x in enumerate(n.val)]
     if t is ast.BinOp:
@@ -78,7 +78,7 @@ def _shape(n):
     if t is ast.UnaryOp:
         return ["Un", UN[type(n.op)], None], [(2, n.operand)]
     if t is ast.Call:
-        if not isinstance(n.args, list):
+        if not isinstance(n.args, (list, tuple)):
             raise Unprojectable("Call.args is %r" % type(n.args))
         return ["Call", None, [None] * len(n.args)], [(1, n.func)] + [((2, i), x) for i, x in enumerate(n.args)]
     if t is ast.NamedParam:
